@@ -58,6 +58,10 @@ F9 == {Case(<<<<a>>>>, {}, "none", -1, {}, "none", -1) : a \in Sizes}
       \cup UNION {{Case(<<<<a>>, <<"x">>>>, c, "none", -1, {}, "none", -1) : c \in {{}, {Len1(<<a>>)}}} : a \in {"A4096", "A16384"}}
       \cup {Case(<<<<"A1500">>, <<"A2596">>>>, {}, "none", -1, {}, "none", -1), Case(<<<<"A4000">>, <<"A4192">>>>, {}, "none", -1, {}, "none", -1),
             Case(<<<<"x">>, <<"A8192">>>>, {Len1(<<"x">>)}, "none", -1, {}, "none", -1)}
+      (* a configuration of a megabyte, and of 16 MiB give or take a few bytes, with the next message behind it in the same *)
+      (* write or in a write of its own                                                                                  *)
+      \cup UNION {{Case(<<<<a>>, <<"x">>>>, c, "none", -1, {}, "none", -1) : c \in {{}, {Len1(<<a>>)}}} :
+                     a \in {"A1048576", "A16777152", "A16777215", "A16777216"}}
 (* multi-byte characters, each of their bytes a symbol: every cut inside a character, one or two cuts *)
 BU == {<<"U1", "U2">>, <<"x", "E1", "E2", "E3", "x">>, <<"G1", "G2", "G3", "G4">>, <<"U1", "U2", "]", "E1", "E2", "E3">>}
 F10 == UNION {{Case(<<b>>, c, "none", -1, {}, "none", -1) : c \in SubsetsUpTo(5..(Len1(b) - 7), 2)} : b \in BU}
@@ -68,7 +72,11 @@ Many(n) == [k \in 1..n |-> <<"x">>]
 F11 == {Case(Many(n), c, "none", -1, {}, "none", -1) : n \in {33, 40, 70},
           c \in {{}, {Len1(<<"x">>) * 20}}}
        \cup {Case(Many(n), {k * Len1(<<"x">>) : k \in 1..(n - 1)}, "none", -1, {}, "none", -1) : n \in {33, 40}}
-Cases == CASE Family = "F7" -> F7 [] Family = "F10" -> F10 [] Family = "F11" -> F11 [] Family = "F8" -> F8 [] Family = "F9" -> F9 [] Family = "F6" -> F6 [] Family = "F1" -> F1 [] Family = "F2" -> F2 [] Family = "F3" -> F3
+(* SSH: the server starts writing before it has answered the subsystem request - channel data (all of the hello, its   *)
+(* first byte, its first half, the hello and the first reply) arrives ahead of SSH_MSG_CHANNEL_SUCCESS                  *)
+F12 == {[Case(<<b>>, {}, "none", -1, {}, "none", -1) EXCEPT !.hello_close_at = -1] @@ [early |-> e] :
+          b \in {<<"x">>, <<"]", "]", ">">>}, e \in {"all", "one-byte", "half", "all-but-one"}}
+Cases == CASE Family = "F12" -> F12 [] Family = "F7" -> F7 [] Family = "F10" -> F10 [] Family = "F11" -> F11 [] Family = "F8" -> F8 [] Family = "F9" -> F9 [] Family = "F6" -> F6 [] Family = "F1" -> F1 [] Family = "F2" -> F2 [] Family = "F3" -> F3
            [] Family = "F4" -> F4 [] Family = "F5" -> F5
 ASSUME PrintT(<<"GEN", ToJson([cases |-> Cases])>>)
 VARIABLE dummy
